@@ -72,6 +72,7 @@ import Tie.MetaTable
 #print axioms Sourcer.C02_tree_well_shaped_and_yield
 #print axioms Sourcer.C02_generated_code_builds_that_tree
 #print axioms Sourcer.C02_reductions_preserve_order
+#print axioms Sourcer.C02_run_is_maximal
 #print axioms Sourcer.C02_unique
 #print axioms Sourcer.C02_result_is_the_well_shaped_tree
 #print axioms Sourcer.C05_flat_locals_realise_lexical_scoping
